@@ -153,7 +153,13 @@ class UnitAngle(object):
     r = self.__eq__(other)
     return r if r is NotImplemented else not r
 
-  __hash__ = None
+  # consistent with __eq__, so that a frequency can be a key of a cache the code may keep
+  def __hash__(self):
+    if self.u == CQ(1):
+      return hash(0)
+    if self.u == CQ(-1):
+      return hash(math.pi)
+    return hash(self.u)
 
 
 class ScaledAngle(object):
